@@ -75,12 +75,12 @@ func c18StartFirst(s *schedules) {
 // VerifC18_ScheduleTiming: real elapsed time is modelled (every timer/ticker/ghost event has a wall-clock instant,
 // monotone with the schedule; a timer fires at arm-time + delay unless stopped or re-armed before that instant, and
 // - Go <= 1.22 - a fired value stays in the channel buffer across a later Stop/Reset). Two schedules (0 / 1s and
-// 1min / 10s), Start, an optional Restart, Stop, up to 4 loop rounds of the runner goroutine: the function is invoked
+// 1min / 10s), Start, an optional Restart, Stop, up to 5 loop rounds of the runner goroutine: the function is invoked
 // at the SECOND schedule's frequency only when at least that schedule's start delay has elapsed since Start and
 // since every Restart that was processed before the invocation (Restart goes back to the first schedule).
 //
 //verif:conc
-//verif:unroll 4
+//verif:unroll 5
 //verif:timers real
 //verif:timeout 600
 //verif:replace (*$M/internal/raterun.schedules).startFirst c18StartFirst
